@@ -12,7 +12,9 @@ import Sqfs.Spec.FsTree
       extra / filePrefix / pattern = "-" (absent) | "p:<hex>"
     → "ok <dump>" | "err"      (dump format: see harness/h_c11.c)
   isort <name>*          → the names after `insert_sorted` of each, in the order given
-  spec <n> <dump-a> <dump-b>  … see `Sqfs.Spec.FsTree` (monitor ops below)
+  mon-sorted <name>*     → 1 iff the list is strictly increasing in strcmp order (`Sqfs.FsTree.SortedNames`); monitor op:
+                           evaluated by the check on the child lists of the trees the *implementation* built
+  lt <a> <b>             → 1 iff strcmp(a, b) < 0 in the model
 Numbers are decimal, names/paths hex ("-" = empty), paths are joined with '/'.
 -/
 namespace Driver.C11
@@ -149,6 +151,11 @@ def step (line : String) : String :=
       let mk (n : Name) : TNode := .mk n default []
       let l := ns.foldl (fun acc n => insertSorted (mk n) acc) []
       String.intercalate " " (l.map fun t => toHexTok t.name)
+  | "mon-sorted" :: names =>
+    -- monitor: the specification predicate `SortedNames` evaluated on a child list observed in the implementation
+    match names.mapM fromHex with
+    | none => "bad-op"
+    | some ns => if decide (SortedNames ns) then "1" else "0"
   | "lt" :: a :: b :: [] =>
     match fromHex a, fromHex b with
     | some a, some b => if nameLt a b then "1" else "0"
